@@ -22,6 +22,7 @@ import (
 	"sigs.k8s.io/karpenter/pkg/controllers/nodepool/registrationhealth"
 	"sigs.k8s.io/karpenter/pkg/state/nodepoolhealth"
 	"sigs.k8s.io/karpenter/pkg/test"
+	testv1alpha1 "sigs.k8s.io/karpenter/pkg/test/v1alpha1"
 
 	"verifharness/kit"
 )
@@ -88,7 +89,7 @@ func runTracker(c *kit.Ctx, ops []int) {
 	c.AddCase(fmt.Sprintf("CaseT %s %s", kit.GList(gops), kit.GList(gobs)), tcase{"tracker", jops, jobs}, key)
 }
 
-var sopNames = []string{"RecordSuccess", "RecordFailure", "PoolChanged", "Crash", "Reconcile"}
+var sopNames = []string{"RecordSuccess", "RecordFailure", "PoolChanged", "Crash", "Reconcile", "ClassChanged"}
 
 type sysEnv struct {
 	c     client.Client
@@ -176,6 +177,16 @@ func runSys(c *kit.Ctx, ops []int) {
 			e.state = nodepoolhealth.NewState()
 		case 4:
 			e.reconcile()
+		case 5:
+			nodeClass := &testv1alpha1.TestNodeClass{}
+			if err := e.c.Get(ctx, client.ObjectKey{Name: "nodeclass"}, nodeClass); err != nil {
+				panic(err)
+			}
+			nodeClass.Generation++
+			if err := e.c.Update(ctx, nodeClass); err != nil {
+				panic(err)
+			}
+			e.reconcile()
 		}
 		gobs = append(gobs, e.cond())
 	}
@@ -219,9 +230,10 @@ func main() {
 	// corpus first: the history of F1
 	runTracker(c, []int{0, 0, 0, 0, 1, 1, 0})
 	runSys(c, []int{0, 0, 0, 0, 1, 1, 0, 1})
+	runSys(c, []int{1, 5, 1, 1}) // seeded C20-1: NodeClass change while the condition is already Unknown
 	enumerate(2, tfLen, func(s []int) { runTracker(c, s) })
 	enumerate(6, mixLen, func(s []int) { runTracker(c, s) })
-	enumerate(5, sysLen, func(s []int) { runSys(c, s) })
+	enumerate(6, sysLen, func(s []int) { runSys(c, s) })
 	for i := 0; i < nRand; i++ {
 		r := c.Rand.Fork()
 		n := r.Range(6, 16)
@@ -239,12 +251,12 @@ func main() {
 			if r.Chance(3, 4) {
 				t[j] = r.Intn(2)
 			} else {
-				t[j] = r.Intn(5)
+				t[j] = r.Intn(6)
 			}
 		}
 		runSys(c, t)
 	}
-	c.Meta.Rule = fmt.Sprintf("exhaustive: all {T,F} sequences of length %d, all sequences of length %d over 6 tracker ops, all sequences of length %d over 5 system ops; plus %d random longer ones. non-trivial = the ring buffer wrapped (more than 4 consecutive updates) / at least 3 outcomes recorded; distinct by op sequence", tfLen, mixLen, sysLen, nRand)
+	c.Meta.Rule = fmt.Sprintf("exhaustive: all {T,F} sequences of length %d, all sequences of length %d over 6 tracker ops, all sequences of length %d over 6 system ops; plus %d random longer ones. non-trivial = the ring buffer wrapped (more than 4 consecutive updates) / at least 3 outcomes recorded; distinct by op sequence", tfLen, mixLen, sysLen, nRand)
 	c.Meta.Exhaustive = true
 	c.Meta.Corr = []string{"nodepoolhealth.State.{Update,SetStatus,Status,DryRun} = C20.Model.{tstep,tstatus,dry_run}",
 		"lifecycle.{Registration,Liveness}.updateNodePoolRegistrationHealth + registrationhealth.Reconcile = C20.Model.step"}
